@@ -136,4 +136,124 @@ theorem abel_ramp (R x : ℝ) (hR : 0 ≤ R) (hx : 0 ≤ x) :
     rw [setIntegral_congr_fun measurableSet_Ioi this]
     simp
 
+/-! ### the quadratic ramp `(R − r)₊²` — building block of the degree-2 (quadratic B-spline) basis -/
+
+/-- `(R − r)₊²` -/
+noncomputable def qramp (R : ℝ) (r : ℝ) : ℝ := (max 0 (R - r)) ^ 2
+
+theorem qramp_continuous (R : ℝ) : Continuous (qramp R) := by unfold qramp; fun_prop
+
+theorem qramp_zero_of_le {R r : ℝ} (h : R ≤ r) : qramp R r = 0 := by
+  unfold qramp; rw [max_eq_left (by linarith)]; ring
+
+theorem losInt_qramp (R x : ℝ) : LosInt (qramp R) x :=
+  losInt_of_continuous (qramp_continuous R) (max 0 R) x (le_max_left _ _)
+    (fun _ h => qramp_zero_of_le (le_trans (le_max_right _ _) h))
+
+/-- a quadratic ramp that ends at or before the axis projects to nothing -/
+theorem abel_qramp_nonpos (R x : ℝ) (hR : R ≤ 0) : Abel (qramp R) x = 0 := by
+  unfold Abel
+  have : ∀ z ∈ Ioi (0 : ℝ), qramp R (Real.sqrt (x ^ 2 + z ^ 2)) = (fun _ => (0 : ℝ)) z := by
+    intro z _
+    exact qramp_zero_of_le (le_trans hR (Real.sqrt_nonneg _))
+  rw [setIntegral_congr_fun measurableSet_Ioi this]
+  simp
+
+private theorem hasDerivAt_G (R x z : ℝ) (hx : 0 < x) (hz : 0 ≤ z) :
+    HasDerivAt (fun z => R ^ 2 * z - R * (z * Real.sqrt (x ^ 2 + z ^ 2) + x ^ 2 * Real.log (z + Real.sqrt (x ^ 2 + z ^ 2)))
+        + (x ^ 2 * z + z ^ 3 / 3))
+      ((R - Real.sqrt (x ^ 2 + z ^ 2)) ^ 2) z := by
+  -- ½(z s + x² ln(z + s))′ = s, from the ramp's antiderivative with R = 0
+  have h0 := hasDerivAt_F 0 x z hx hz
+  have hpos : 0 ≤ x ^ 2 + z ^ 2 := by positivity
+  have hss : Real.sqrt (x ^ 2 + z ^ 2) ^ 2 = x ^ 2 + z ^ 2 := Real.sq_sqrt hpos
+  have h1 : HasDerivAt (fun z => x ^ 2 * z + z ^ 3 / 3) (x ^ 2 * 1 + 3 * z ^ 2 / 3) z := by
+    have := ((hasDerivAt_id z).const_mul (x ^ 2)).add ((hasDerivAt_pow 3 z).div_const 3)
+    refine this.congr_deriv ?_
+    simp
+  have h2 := ((hasDerivAt_id z).const_mul (R ^ 2)).add ((h0.const_mul (2 * R)))
+  have h3 := h2.add h1
+  have e : (fun z => R ^ 2 * z - R * (z * Real.sqrt (x ^ 2 + z ^ 2) + x ^ 2 * Real.log (z + Real.sqrt (x ^ 2 + z ^ 2)))
+        + (x ^ 2 * z + z ^ 3 / 3))
+      = fun z => R ^ 2 * id z + 2 * R * (0 * z - 1 / 2 * (z * Real.sqrt (x ^ 2 + z ^ 2)
+          + x ^ 2 * Real.log (z + Real.sqrt (x ^ 2 + z ^ 2)))) + (x ^ 2 * z + z ^ 3 / 3) := by
+    funext z; simp only [id]; ring
+  rw [e]
+  refine h3.congr_deriv ?_
+  nlinarith [hss]
+
+/-- **Abel transform of the quadratic ramp** -/
+theorem abel_qramp (R x : ℝ) (hR : 0 ≤ R) (hx : 0 ≤ x) :
+    Abel (qramp R) x = if x < R then
+        Real.sqrt (R ^ 2 - x ^ 2) * (2 / 3 * R ^ 2 + 4 / 3 * x ^ 2)
+          - 2 * R * x ^ 2 * Real.log (Real.sqrt (R ^ 2 - x ^ 2) + R) + 2 * R * x ^ 2 * Real.log x
+      else 0 := by
+  split_ifs with hlt
+  · set y := Real.sqrt (R ^ 2 - x ^ 2) with hy
+    have hy2 : 0 ≤ R ^ 2 - x ^ 2 := by nlinarith
+    have hy0 : 0 ≤ y := Real.sqrt_nonneg _
+    have hyy : y ^ 2 = R ^ 2 - x ^ 2 := Real.sq_sqrt hy2
+    have hzero : ∀ z ∈ Ioi (0 : ℝ) \ Ioc 0 y, qramp R (Real.sqrt (x ^ 2 + z ^ 2)) = 0 := by
+      intro z hz
+      simp only [mem_sdiff, mem_Ioi, mem_Ioc, not_and, not_le] at hz
+      obtain ⟨hz0, hzy⟩ := hz
+      have hzy' : y < z := hzy hz0
+      apply qramp_zero_of_le
+      have : R ^ 2 ≤ x ^ 2 + z ^ 2 := by nlinarith
+      calc R = Real.sqrt (R ^ 2) := (Real.sqrt_sq hR).symm
+        _ ≤ Real.sqrt (x ^ 2 + z ^ 2) := Real.sqrt_le_sqrt this
+    have hsub : Ioc (0 : ℝ) y ⊆ Ioi 0 := fun z hz => hz.1
+    unfold Abel
+    rw [setIntegral_eq_of_subset_of_forall_sdiff_eq_zero (μ := volume) measurableSet_Ioi hsub hzero,
+      ← intervalIntegral.integral_of_le hy0]
+    have hin : ∀ z ∈ uIcc (0 : ℝ) y, qramp R (Real.sqrt (x ^ 2 + z ^ 2)) = (R - Real.sqrt (x ^ 2 + z ^ 2)) ^ 2 := by
+      intro z hz
+      rw [uIcc_of_le hy0] at hz
+      unfold qramp
+      have : x ^ 2 + z ^ 2 ≤ R ^ 2 := by nlinarith [hz.1, hz.2]
+      have : Real.sqrt (x ^ 2 + z ^ 2) ≤ R := by
+        calc Real.sqrt (x ^ 2 + z ^ 2) ≤ Real.sqrt (R ^ 2) := Real.sqrt_le_sqrt this
+          _ = R := Real.sqrt_sq hR
+      rw [max_eq_right (by linarith)]
+    rw [intervalIntegral.integral_congr hin]
+    rcases eq_or_lt_of_le hx with h0 | hpos
+    · subst h0
+      have hy' : y = R := by rw [hy]; simp [Real.sqrt_sq hR]
+      have hin2 : ∀ z ∈ uIcc (0 : ℝ) y, (R - Real.sqrt ((0 : ℝ) ^ 2 + z ^ 2)) ^ 2 = (R - z) ^ 2 := by
+        intro z hz
+        rw [uIcc_of_le hy0] at hz
+        rw [zero_pow two_ne_zero, zero_add, Real.sqrt_sq hz.1]
+      rw [intervalIntegral.integral_congr hin2]
+      have hd : ∀ z ∈ uIcc (0 : ℝ) y, HasDerivAt (fun z : ℝ => -((R - z) ^ 3) / 3) ((R - z) ^ 2) z := by
+        intro z _
+        have h := (((hasDerivAt_id z).const_sub R).pow 3).neg.div_const 3
+        refine h.congr_deriv ?_
+        simp
+      rw [intervalIntegral.integral_eq_sub_of_hasDerivAt hd (by apply Continuous.intervalIntegrable; fun_prop)]
+      rw [hy']; simp; ring
+    · have hd : ∀ z ∈ uIcc (0 : ℝ) y, HasDerivAt
+          (fun z => R ^ 2 * z - R * (z * Real.sqrt (x ^ 2 + z ^ 2) + x ^ 2 * Real.log (z + Real.sqrt (x ^ 2 + z ^ 2)))
+            + (x ^ 2 * z + z ^ 3 / 3))
+          ((R - Real.sqrt (x ^ 2 + z ^ 2)) ^ 2) z := by
+        intro z hz
+        rw [uIcc_of_le hy0] at hz
+        exact hasDerivAt_G R x z hpos hz.1
+      rw [intervalIntegral.integral_eq_sub_of_hasDerivAt hd (by apply Continuous.intervalIntegrable; fun_prop)]
+      have hsy : Real.sqrt (x ^ 2 + y ^ 2) = R := by
+        rw [hyy, show x ^ 2 + (R ^ 2 - x ^ 2) = R ^ 2 by ring, Real.sqrt_sq hR]
+      have hs0 : Real.sqrt (x ^ 2 + (0 : ℝ) ^ 2) = x := by
+        rw [zero_pow two_ne_zero, add_zero, Real.sqrt_sq hpos.le]
+      have hy3 : y ^ 3 = y * (R ^ 2 - x ^ 2) := by rw [← hyy]; ring
+      rw [hsy, hs0, zero_add, hy3]; ring
+  · have hle : R ≤ x := not_lt.mp hlt
+    unfold Abel
+    have : ∀ z ∈ Ioi (0 : ℝ), qramp R (Real.sqrt (x ^ 2 + z ^ 2)) = (fun _ => (0 : ℝ)) z := by
+      intro z hz
+      apply qramp_zero_of_le
+      calc R ≤ x := hle
+        _ = Real.sqrt (x ^ 2) := (Real.sqrt_sq hx).symm
+        _ ≤ Real.sqrt (x ^ 2 + z ^ 2) := Real.sqrt_le_sqrt (by nlinarith [sq_nonneg z])
+    rw [setIntegral_congr_fun measurableSet_Ioi this]
+    simp
+
 end PyAbel
